@@ -136,15 +136,6 @@ theorem setitem_list (xs : List α) (i : Int) (v : α) (hi : IsI64 i) (hn : xs.l
     through the emitted code, behaves like the same sequence on a Python list (same values read,
     same final list), and panics exactly when Python's list semantics restricted to non-negative
     indices fails.  Induction over the sequence. -/
-def runOps : Cells α × List α → List (AOp α) → M (Cells α × List α)
-  | st, [] => pure st
-  | st, .read i :: os => do
-    let (v, a) ← getitem false st.1 i
-    runOps (a, st.2 ++ [v]) os
-  | st, .write i v :: os => do
-    let a ← setitem false st.1 i v
-    runOps (a, st.2) os
-
 theorem classical_ops_refine_list (ops : List (AOp α))
     (hops : ∀ o ∈ ops, match o with | .read i => IsI64 i | .write i _ => IsI64 i) :
     ∀ (xs log : List α), xs.length ≤ 2 ^ 63 →
@@ -170,6 +161,59 @@ theorem classical_ops_refine_list (ops : List (AOp α))
       · simp only [h, and_self, ↓reduceIte, bind, Except.bind]
         exact ih' _ log (by simpa using hn)
       · simp [h, bind, Except.bind]
+
+/-- **C19 (sequences of borrows and returns)**: any sequence of lends and give-backs on a linear
+    array, run through the emitted code, behaves like the reference model "Python list + lent
+    flag per position": same elements handed out, same final contents and flags; and it panics
+    exactly when the reference says the operation is illegal (index not in `0 ≤ i < n`, lending a
+    lent element, giving back into an occupied position).  Induction over the sequence. -/
+theorem linear_ops_refine_flags (ops : List (LOp α)) (hops : ∀ o ∈ ops, IsI64 o.idx) :
+    ∀ (r : Ref α) (log : List α), r.WF → r.vals.length ≤ 2 ^ 63 →
+      match refRun (r, log) ops with
+      | some (r', log') => runL (r.cells, log) ops = .ok (r'.cells, log')
+      | none => ∃ e, runL (r.cells, log) ops = .error e := by
+  induction ops with
+  | nil => intro r log _ _; simp [refRun, runL, pure, Except.pure]
+  | cons o os ih =>
+    intro r log hwf hn
+    have ho := hops o (by simp)
+    have ih' := ih (fun o h => hops o (by simp [h]))
+    have hlen := r.cells_length hwf
+    cases o with
+    | lend i =>
+      simp only [LOp.idx] at ho
+      simp only [refRun, refStep, runL]
+      rw [getitem_spec true r.cells i ho (by rw [hlen]; exact hn), hlen]
+      by_cases h : 0 ≤ i ∧ i.toNat < r.vals.length
+      · have hr : InRange r.vals.length i := by unfold InRange; omega
+        have hk' : i.toNat < r.lent.length := hwf ▸ h.2
+        simp only [h, and_self, ↓reduceDIte, hr, ↓reduceIte, r.cells_get hwf _ h.2]
+        by_cases hl : r.lent[i.toNat] = true
+        · simp [hl, List.getElem?_eq_getElem hk', bind, Except.bind]
+        · have hl' : r.lent[i.toNat] = false := by simpa using hl
+          simp only [hl', Bool.false_eq_true, ↓reduceIte, List.getElem?_eq_getElem hk', bind,
+            Except.bind, r.cells_set_lend]
+          exact ih' ⟨r.vals, r.lent.set i.toNat true⟩ _ (by simp [Ref.WF]; exact hwf) hn
+      · have hr : ¬ InRange r.vals.length i := by unfold InRange; omega
+        simp [h, hr, bind, Except.bind]
+    | giveBack i v =>
+      simp only [LOp.idx] at ho
+      simp only [refRun, refStep, runL]
+      rw [setitem_spec true r.cells i v ho (by rw [hlen]; exact hn), hlen]
+      by_cases h : 0 ≤ i ∧ i.toNat < r.vals.length
+      · have hr : InRange r.vals.length i := by unfold InRange; omega
+        have hk' : i.toNat < r.lent.length := hwf ▸ h.2
+        simp only [h, and_self, ↓reduceIte, hr, r.cells_get hwf _ h.2]
+        by_cases hl : r.lent[i.toNat] = true
+        · simp only [hl, ↓reduceIte, List.getElem?_eq_getElem hk', bind, Except.bind,
+            r.cells_set_give]
+          exact ih' ⟨r.vals.set i.toNat v, r.lent.set i.toNat false⟩ _
+            (by simp [Ref.WF]; exact hwf) (by simpa using hn)
+        · have hl' : r.lent[i.toNat] = false := by simpa using hl
+          simp [hl', List.getElem?_eq_getElem hk', bind, Except.bind]
+      · have hr : ¬ InRange r.vals.length i := by unfold InRange; omega
+        simp [h, hr, bind, Except.bind]
+
 
 /-- **C19 / C07 (borrowed element)**: `callee(xs[i])` with a borrowing callee on a linear element
     (borrow, call, return) leaves the array with exactly element `i` replaced by the callee's
@@ -306,5 +350,9 @@ example : [10, 20].foldlM compStep (compInit 2) = .ok (ofList [10, 20], 2) := by
 example : pyRun ([1, 2, 3], []) [.write 0 9, .read 0, .read 2] = some ([9, 2, 3], [9, 3]) := by
   decide
 example : pyRun ([1, 2, 3], ([] : List Nat)) [.read (-1)] = none := by decide
+example : refRun (⟨[1, 2, 3], [false, false, false]⟩, []) [.lend 1, .giveBack 1 9, .lend 1]
+    = some (⟨[1, 9, 3], [false, true, false]⟩, [2, 9]) := by decide
+example : refRun (⟨[1, 2, 3], [false, false, false]⟩, ([] : List Nat)) [.lend 1, .lend 1] = none := by
+  decide
 
 end GuppyVerif.ArraySem
